@@ -10,6 +10,12 @@ documented lock-free reads, which the model has as separate steps / which only t
     Zone.writer, after the admission loop     reads  self._write_txn  (its own transaction)
     the policy closure of set_max_versions    reads  zone._versions   (only ever called by the prune loop)
 and no Event.wait() happens inside a `with self._version_lock:` block.
+
+The lock-free reads are pinned to their exact SHAPE: the model's argument (`latest_stable_for_writer`) is that
+only the admitted writer appends and pruning never removes the newest version, so a lock-free read is safe only
+if it reads the NEWEST version in one indexing operation.  Outside the lock `_versions` may therefore only occur
+as `<zone>._versions[-1]` or as `len(<zone>._versions) > 0` (emptiness test); any other use - a stored length,
+index arithmetic, iteration, slicing - is a guard failure.
 """
 import ast
 import os
@@ -31,9 +37,28 @@ def is_lock_with(node):
     return False
 
 
+def lockfree_shape_ok(node, parents):
+    """node: an ast.Attribute `x._versions` read outside the lock"""
+    par = parents.get(id(node))
+    # x._versions[-1]
+    if isinstance(par, ast.Subscript) and par.value is node and isinstance(par.ctx, ast.Load):
+        sl = par.slice
+        if isinstance(sl, ast.UnaryOp) and isinstance(sl.op, ast.USub) and isinstance(sl.operand, ast.Constant) \
+                and sl.operand.value == 1:
+            return True
+        return False
+    # len(x._versions) > 0   /   len(x._versions) > <name>   only directly as a comparison operand
+    if isinstance(par, ast.Call) and isinstance(par.func, ast.Name) and par.func.id == "len" and par.args == [node]:
+        gp = parents.get(id(par))
+        if isinstance(gp, ast.Compare) and gp.left is par and len(gp.ops) == 1 and isinstance(gp.ops[0], ast.Gt):
+            return True
+    return False
+
+
 class Visitor(ast.NodeVisitor):
     def __init__(self, fname):
         self.fname = fname
+        self.nodes = {}
         self.stack = []        # enclosing function names
         self.lock_depth = 0
         self.cls = []
@@ -82,6 +107,7 @@ class Visitor(ast.NodeVisitor):
             base = node.value.id if isinstance(node.value, ast.Name) else "?"
             self.accesses.append((node.attr, tuple(self.cls), tuple(self.stack), node.lineno, self.lock_depth > 0,
                                   isinstance(node.ctx, (ast.Store, ast.Del)), base))
+            self.nodes[(node.lineno, node.col_offset)] = node
         self.generic_visit(node)
 
     def visit_Call(self, node):
@@ -121,6 +147,17 @@ def guard():
             continue
         v = Visitor(rel)
         v.visit(tree)
+        parents = {}
+        for par in ast.walk(tree):
+            for ch in ast.iter_child_nodes(par):
+                parents[id(ch)] = par
+        by_line = {}
+        for (ln, col), nd in v.nodes.items():
+            by_line.setdefault(ln, []).append(nd)
+
+        def shape_ok(line, fld):
+            return all(lockfree_shape_ok(nd, parents) for nd in by_line.get(line, []) if nd.attr == fld)
+
         for fld, cls, stack, line, locked, store, base in v.accesses:
             total += 1
             fn = stack[-1] if stack else "<module>"
@@ -130,14 +167,21 @@ def guard():
                 if locked or fn.endswith("_unlocked") or outer == "__init__":
                     continue
                 if fn == "_get_next_version_id" and fld == "_versions" and not store:
+                    if not shape_ok(line, fld):
+                        problems.append(f"{where}: lock-free read of _versions is not `self._versions[-1]` / "
+                                        "`len(self._versions) > 0` (a stale length or index can miss a concurrent prune)")
                     continue
                 if stack == ("writer",) and fld == "_write_txn" and not store:
                     continue
                 if stack == ("set_max_versions", "policy") and fld == "_versions" and not store and base == "zone":
+                    if not shape_ok(line, fld):
+                        problems.append(f"{where}: policy closure uses _versions other than `len(zone._versions) > n`")
                     continue
                 problems.append(f"{where}: {'write to' if store else 'read of'} {fld} outside `with self._version_lock`")
             elif rel == os.path.join("dns", "btreezone.py") and cls == ("WritableVersion",) and stack == ("__init__",) \
                     and fld == "_versions" and not store:
+                if not shape_ok(line, fld):
+                    problems.append(f"{where}: lock-free read of _versions is not `zone._versions[-1]`")
                 continue
             else:
                 problems.append(f"{where}: access to {fld} of a versioned zone from outside dns.versioned.Zone")
